@@ -79,6 +79,18 @@ def fold_text(F, name, text, crate_fns):
         return sf.hook(callee, args, s)
     ev.call_hook = hook
     ev.inline = crate_fns
+
+    def to_string_of_self(callee, method, recv, s):
+        """`self.to_string()` inside another rendering of the number is the text its Display implementation writes (ToString is implemented through Display)"""
+        if method == "to_string" and recv == ("sym", "self") and "ToString" in (callee or "") and not name.endswith("Display>::fmt"):
+            disp = [n for n in F.hir if re.match(r"^<dmntk_feel_number::number::FeelNumber as core::fmt::Display>::fmt$", n)]
+            if disp:
+                r, _, ev2 = fold_text(F, disp[0], text, crate_fns)
+                ev.inlined |= getattr(ev2, "inlined", set())
+                ev.calls_seen += getattr(ev2, "calls_seen", [])
+                return r
+        return None
+    ev.transparent_hook = to_string_of_self
     h = F.hir.get(name)
     if h is None:
         return None, sf, ev
